@@ -117,6 +117,15 @@ CHECKS = {
               "allocated virtual ids. The state space of the stated domain is finite and enumerated completely. One open known finding (EPR context form)."),
         technique="contract-based deductive verification: local lemma per primitive decided by complete enumeration of the finite abstract state space, real pipeline executed by the pyvc interpreter",
         design_ref="5.C09"),
+    "C10": dict(
+        category="proof",
+        text=("The receiver's correction code for recv_keep / recv_keep_with_info / recv_keep with post routine (sequential) / recv_rsp / recv_rsp_with_info on generic and "
+              "NV hardware, with and without another live qubit, is executed on the real executor with the Bell state of every delivered pair symbolic; rotations are "
+              "attributed to physical qubits when applied: pair i's qubit receives exactly P(b_i), nothing else is touched, and nothing is applied with the expectation off "
+              "(pair counts 1..2 quick, 3..4 thorough). Exact Pauli-table lemma ((P(b) x I)|bell_b> ~ |Phi+>); complete post-processing table for measure-directly (96 cases). "
+              "Open known findings: generic all-at-once variants correct virtual qubit 0; NV multi-pair with another live qubit does not compile."),
+        technique="contract-based deductive verification: symbolic execution of the emitted correction code on the real executor (symbolic Bell states), exact Pauli algebra, finite post-processing table",
+        design_ref="5.C10"),
     "C19": dict(
         category="proof",
         text=("Loop-invariant proof of get_angle_spec_from_float over the reals for every angle and every tolerance in [1e-9, 1]: the real loop "
